@@ -35,6 +35,8 @@ CHECKS = {
          "the neighbour is an active peer (the DUT dials through the overlay's Dial seam) and also connects in; OPEN/KEEPALIVE deliveries on both connections are ordered by the plan (clean collision, racy delays, late second connection) for identifier orderings incl. equal identifiers with different AS; never two Established or two contributing FSMs, exactly one session afterwards, the loser closed with Cease, and in the clean collision the survivor is the connection initiated by the speaker with the higher identifier (RFC 4271 6.8 / RFC 6286)"),
  "C25": ("bgpsim + ribsim", "5/C25", "deterministic simulation with a seeded scheduler at every lock acquisition; waits-for cycle detection and bounded liveness in simulated time",
          "route updates from live sessions, policy replacements, DisposePeer, Metrics, RIB dumps, static routes (bgpsim) and bare table operations, client (un)registration, refresh, export policy replacement and Loc-RIB disposal (ribsim) are released together and interleaved by the seeded gate scheduler at every simulator-mutex acquisition; a waits-for cycle in the logical lock table or an operation / goroutine still blocked after 600 simulated seconds of quiescence is a violation; afterwards the tables must still serve a fresh operation"),
+ "C26": ("bgpsim + ribsim, race build", "5/C26", "deterministic simulation on a -race build of the engine: plan-defined concurrent steps judged by the Go race detector, goroutine choice by seeded yields on one P",
+         "the engine is rebuilt with -race: bio-rd is instrumented and keeps its own mutexes, while the simulator runtime and harness are compiled without instrumentation and use locks the detector cannot see (so the simulator adds no happens-before edges between product goroutines beyond goroutine start, timer fire and byte arrival); GOMAXPROCS=1 without asynchronous preemption plus PRNG-chosen yields before lock acquisitions decide the schedule. UPDATE arrivals from 2-4 sessions, import/export policy replacements, Metrics(), GetRIBIn/GetRIBOut + dumps, DisposePeer, session teardown by NOTIFICATION/close, re-connects and static routes (bgpsim) or bare Loc-RIB/Adj-RIB-Out operations (ribsim) are released at one simulated instant; every race report (unordered pair of bio-rd functions) is a violation. Limitation: the interleaving inside a step is the Go scheduler's (deterministic in practice, measured by the double replay), and the detector only sees accesses that were executed"),
  "C27": ("bmpsim", "5/C27", "deterministic simulation with fault injection: hostile and damaged BMP byte streams over the simulated connection, fragmentation and connection loss at seeded points",
          "a scripted monitored router sends well-formed conversations with injected damage (length fields below the header / huge / beyond the data, truncated bodies, statistics counts and TLV lengths beyond the message, empty reason TLVs, peer-up OPENs that are rejected, bit flips, noise, damaged UPDATEs), delivered in seeded fragments, ended by close at any point; the receiver's real message loop must not crash, must not allocate more than 1 MiB + 256 x bytes received, and must return after the connection ends"),
  "C28": ("bmpsim", "5/C28", "deterministic simulation: well-formed BMP histories against a model of the up peers' routes per VRF, with session end by peer-down, termination and connection loss",
